@@ -9,6 +9,7 @@ From Coq Require Import Reals ZArith List Permutation.
 From PV Require Import Num NumR Model_density Proofs_geometry Proofs_density.
 From PV Require Import Model_poles_axes Proofs_poles_axes.
 From PV Require Import Inst_density Inst_density_all.
+From PV Require Import Model_memo Proofs_memo Proofs_density_session.
 From PV.gen Require Import Gen_geometry Gen_density.
 Import ListNotations.
 Open Scope R_scope.
@@ -302,3 +303,16 @@ Example C20_generated_nonvacuous :
   Permutation (zip3 [1; 0] [0; 1] [0; 0]) (zip3 [0; 1] [1; 0] [0; 0]) /\
   generated_poles_batch 1 2 (@k_poles_batch_xz_n2 NumR).
 Proof. exact generated_density_nonvacuous. Qed.
+
+(* ---- call histories: the counting grid behind a cache keyed on the grid size (Model_memo; seeded change C20f) ----
+   a cache that hands out COPIES of the grid is invisible on every history of calls and caller-side edits ... *)
+Theorem C20_grid_cache_copying_transparent : forall ops, run grid_of Nat.eqb false [] ops = spec grid_of ops.
+Proof. exact grid_cache_copying_transparent. Qed.
+
+(* ... one that hands out the stored arrays is not: after the caller has edited the returned grid in place (here: one more entry in
+   X), the same call returns the edited grid instead of the grid points inside the unit disk *)
+Theorem C20_grid_cache_aliased_refuted : forall g (x : R),
+  let r := (x :: fst (grid_of g), snd (grid_of g)) in
+  run grid_of Nat.eqb true [] [Call g; Scribble g r; Call g] = [grid_of g; r] /\
+  run grid_of Nat.eqb true [] [Call g; Scribble g r; Call g] <> spec grid_of [Call g; Scribble g r; Call g].
+Proof. exact grid_cache_aliased_refuted. Qed.
